@@ -104,3 +104,21 @@ func (s manyGood) Iter() Iter { return &manyIter{data: many(s)} }
 // bad: the many-to-one format enumerates with the iterator of the sequential one
 func (s many) Lookup(r rune) (int, bool) { return manyGood(s).Lookup(r) }
 func (s many) Iter() Iter                { return &seqIter{data: seq(s)} }
+
+// the first element of a map, whichever it is
+func pickBad(m map[int]Map) Map {
+	for _, v := range m {
+		return v
+	}
+	return nil
+}
+
+// the element satisfying a test
+func pickGood(m map[int]Map, want int) Map {
+	for k, v := range m {
+		if k == want {
+			return v
+		}
+	}
+	return nil
+}
